@@ -1,5 +1,6 @@
 import NanoVerif.Proofs.SolverSkeleton
 import NanoVerif.Proofs.SolverAlgebra
+import NanoVerif.Proofs.SolverStepCompose
 /-!
   C01 — L-BFGS/BFGS solve well-conditioned smooth convex problems, truthfully: the property theorems.
 
@@ -9,6 +10,9 @@ import NanoVerif.Proofs.SolverAlgebra
     and monitored at run time against the wrapper's evaluation log). They are statements about the generated fragments
     (`doneCond`, `doneStatus`, `lbfgsConverged`, …): an edit of `solver_t::done` or of a `converged = …` line re-elaborates them.
   * the remaining theorems are exact arithmetic over an arbitrary linear ordered field.
+  * `converged_truthful_composed*` (last section) need NO line-search hypothesis: the line search is the model
+    `lsearch_t::get = lsearch0 ∘ lsearchk` of `Model/SolverStep.lean` (four step-initialisation strategies with their private
+    members, the glue of lsearch.cpp, and the C07 model of `lsearchk_t::get` with the five searches); only `f` is an oracle.
   * NOT proved here (tested by `tools/props/c01.py` on the statement's problem class): "status `converged` within 1500
     evaluations" — a floating-point convergence-rate claim.
 -/
@@ -273,3 +277,262 @@ example {α : Type} [Field α] [LinearOrder α] [IsStrictOrderedRing α] :
 end examples
 
 end NanoVerif.Solver
+
+/-! ## the line search modelled: `lsearch_t::get = lsearch0 ∘ lsearchk` (Model/SolverStep.lean), only `f` left as an oracle -/
+namespace NanoVerif.SolverStep
+open NanoVerif.Gen.DoneLogic NanoVerif.Solver
+set_option linter.unusedSectionVars false
+
+section generic
+variable {α : Type} [Add α] [Sub α] [Mul α] [Div α] [Neg α] [LT α] [LE α] [DecidableLT α] [DecidableLE α] [∀ n, OfNat α n]
+
+/-- `converged_truthful` WITHOUT a line-search hypothesis: for every objective `f`, direction rule, step-initialisation strategy,
+    line search (of the five), parameter values (in or out of their domains), ε, budget and fuel — and every scalar type —
+    what `minimize` returns is an evaluation of `f`, and `converged` implies the solver's convergence test on the gradient and
+    value of `f` at the returned point. -/
+theorem converged_truthful_composed {M : Type} (env : Env α) (rule : Rule α M) (st : Strategy) (P : Params α)
+    (m : LSearch.Method) (cfg : LSearch.Cfg α) (f : Objective α) (eps : α) (maxEvals fuel : Nat) (x0 : Vec α) :
+    let r := lsMinimizeS env rule st P m cfg f eps maxEvals fuel x0
+    r.fx = (f r.x).1 ∧ r.gx = (f r.x).2 ∧
+    (r.status = Status.converged →
+      rule.conv (gradientTest (infNorm (f r.x).2) (f r.x).1) eps = true ∨
+      rule.convInit (gradientTest (infNorm (f r.x).2) (f r.x).1) eps = true) := by
+  obtain ⟨ls, hls, e⟩ := lsMinimizeS_eq_lsMinimize env rule st P m cfg f eps maxEvals fuel x0
+  intro r
+  have h := converged_truthful env rule ls f hls eps maxEvals fuel x0
+  simp only at h
+  rw [← e] at h
+  exact h
+
+/-- the conclusion in the form of the statement, for any rule whose two generated tests imply `gradient_test < ε` -/
+theorem converged_truthful_composed_lt {M : Type} (env : Env α) (rule : Rule α M) (st : Strategy) (P : Params α)
+    (m : LSearch.Method) (cfg : LSearch.Cfg α) (f : Objective α) (eps : α) (maxEvals fuel : Nat) (x0 : Vec α)
+    (h1 : ∀ g e, rule.conv g e = true → g < e) (h2 : ∀ g e, rule.convInit g e = true → g < e) :
+    let r := lsMinimizeS env rule st P m cfg f eps maxEvals fuel x0
+    r.status = Status.converged →
+      r.fx = (f r.x).1 ∧ r.gx = (f r.x).2 ∧ gradientTest (infNorm (f r.x).2) (f r.x).1 < eps := by
+  intro r hs
+  have h := converged_truthful_composed env rule st P m cfg f eps maxEvals fuel x0
+  refine ⟨h.1, h.2.1, ?_⟩
+  rcases h.2.2 hs with h3 | h3
+  · exact h1 _ _ h3
+  · exact h2 _ _ h3
+
+/-- L-BFGS with the line search modelled, whatever the history size: `converged` ⇒ the returned state is an evaluation of `f`
+    and `‖∇f(x)‖∞ / max(1, |f(x)|) < ε` -/
+theorem converged_truthful_composed_lbfgs (env : Env α) (history : Nat) (st : Strategy) (P : Params α) (m : LSearch.Method)
+    (cfg : LSearch.Cfg α) (f : Objective α) (eps : α) (maxEvals fuel : Nat) (x0 : Vec α) :
+    let r := lsMinimizeS env (lbfgsRule history) st P m cfg f eps maxEvals fuel x0
+    r.status = Status.converged →
+      r.fx = (f r.x).1 ∧ r.gx = (f r.x).2 ∧ gradientTest (infNorm (f r.x).2) (f r.x).1 < eps :=
+  converged_truthful_composed_lt env (lbfgsRule history) st P m cfg f eps maxEvals fuel x0
+    (fun g e h => by simpa [lbfgsRule, lbfgsConverged] using h)
+    (fun g e h => by simpa [lbfgsRule, lbfgsConvergedInit] using h)
+
+/-- BFGS (and SR1 / DFP / Hoshino / Fletcher) with the line search modelled, whatever the initialisation and `r` -/
+theorem converged_truthful_composed_quasi (env : Env α) (kind : QuasiKind) (r0 : α) (scaled : Bool) (n : Nat) (st : Strategy)
+    (P : Params α) (m : LSearch.Method) (cfg : LSearch.Cfg α) (f : Objective α) (eps : α) (maxEvals fuel : Nat) (x0 : Vec α) :
+    let r := lsMinimizeS env (quasiRule env kind r0 scaled n) st P m cfg f eps maxEvals fuel x0
+    r.status = Status.converged →
+      r.fx = (f r.x).1 ∧ r.gx = (f r.x).2 ∧ gradientTest (infNorm (f r.x).2) (f r.x).1 < eps :=
+  converged_truthful_composed_lt env (quasiRule env kind r0 scaled n) st P m cfg f eps maxEvals fuel x0
+    (fun g e h => by simpa [quasiRule, quasiConverged] using h)
+    (fun g e h => by simpa [quasiRule, quasiConvergedInit] using h)
+
+/-- gd and the ten cgd variants with the line search modelled -/
+theorem converged_truthful_composed_gd_cgd (env : Env α) (kind : CgdKind) (eta orthotest : α) (st : Strategy)
+    (P : Params α) (m : LSearch.Method) (cfg : LSearch.Cfg α) (f : Objective α) (eps : α) (maxEvals fuel : Nat) (x0 : Vec α) :
+    ((lsMinimizeS env (gdRule : Rule α Unit) st P m cfg f eps maxEvals fuel x0).status = Status.converged →
+      gradientTest (infNorm (f (lsMinimizeS env (gdRule : Rule α Unit) st P m cfg f eps maxEvals fuel x0).x).2)
+        (f (lsMinimizeS env (gdRule : Rule α Unit) st P m cfg f eps maxEvals fuel x0).x).1 < eps) ∧
+    ((lsMinimizeS env (cgdRule env kind eta orthotest) st P m cfg f eps maxEvals fuel x0).status = Status.converged →
+      gradientTest (infNorm (f (lsMinimizeS env (cgdRule env kind eta orthotest) st P m cfg f eps maxEvals fuel x0).x).2)
+        (f (lsMinimizeS env (cgdRule env kind eta orthotest) st P m cfg f eps maxEvals fuel x0).x).1 < eps) := by
+  exact ⟨fun hs => (converged_truthful_composed_lt env (gdRule : Rule α Unit) st P m cfg f eps maxEvals fuel x0
+      (fun g e h => by simpa [gdRule, gdConverged] using h) (fun g e h => by simpa [gdRule, gdConvergedInit] using h) hs).2.2,
+    fun hs => (converged_truthful_composed_lt env (cgdRule env kind eta orthotest) st P m cfg f eps maxEvals fuel x0
+      (fun g e h => by simpa [cgdRule, cgdConverged] using h) (fun g e h => by simpa [cgdRule, cgdConvergedInit] using h) hs).2.2⟩
+
+end generic
+
+section field
+variable {α : Type} [Field α] [LinearOrder α] [IsStrictOrderedRing α]
+
+/-- `lsearch_t::get` reports success ⇒ the state it leaves is the evaluation of `f` at `x + t d` with `t > 0` the step it stores
+    as `m_last_step_size` (every strategy, every search, parameters in their domains, every earlier history of the object) -/
+theorem lsearch_success_is_evaluation_at_positive_step (env : Env α) (st : Strategy) (P : Params α) (m : LSearch.Method)
+    (cfg : LSearch.Cfg α) (f : Objective α) (o : Obj α) (c : State α) (d : Vec α) (hd : LkDom cfg) (hc : Consistent f c)
+    (hlen : (m = .morethuente ∨ m = .cgdescent) → d.length = c.x.length)
+    (hok : (lsearchGetM env st P m cfg f o c d).ok = true) :
+    ∃ t, t = (lsearchGetM env st P m cfg f o c d).obj.last ∧ 0 < t ∧
+      (lsearchGetM env st P m cfg f o c d).state.x = axpy c.x t d ∧
+      (lsearchGetM env st P m cfg f o c d).state.fx = (f (axpy c.x t d)).1 ∧
+      (lsearchGetM env st P m cfg f o c d).state.gx = (f (axpy c.x t d)).2 :=
+  ⟨_, rfl, lsearchGetM_success env st P m cfg f o c d hd hc hlen hok⟩
+
+/-- the initial step handed to `lsearchk_t::get` is what the strategy's formula gives on the members left by the previous call,
+    the last step size, and this call's state — spelled out per strategy (`min`/`max` are the mathematical ones):
+    constant `t0`; linear / quadratic `1` on a first call (`last < 0`), else `min(1, α·max(−last·dg_prev, βε)/(−dg))` resp.
+    `min(1, α·2·max(f_prev − f, βε)/(−dg_prev))`; CG_DESCENT `phi0‖x‖∞/‖g‖∞`, `phi0|f|/‖g‖₂²` or `1` on a first call, else the
+    parabola minimiser `dg·t1²/(2(dg·t1 + f − f1))` (`t1 = last·phi1`, `f1 = f(x + t1 d)`) when `f1 < f` and the parabola is convex,
+    else `last·phi2` -/
+theorem initial_step_formula (env : Env α) (P : Params α) (m : LSearch.Method) (cfg : LSearch.Cfg α) (f : Objective α)
+    (o : Obj α) (c : State α) (d : Vec α) :
+    let dg := vdot c.gx d
+    let t1 := o.last * P.phi1
+    let f1 := (f (axpy c.x t1 d)).1
+    (lsearchGetM env .constant P m cfg f o c d).t0 = P.constT0 ∧
+    (lsearchGetM env .linear P m cfg f o c d).t0 =
+      (if o.last < 0 then 1 else min 1 (P.linAlpha * max (-(o.last * o.mem.prevdg)) (P.linBeta * P.epsilon) / (-dg))) ∧
+    (lsearchGetM env .quadratic P m cfg f o c d).t0 =
+      (if o.last < 0 then 1
+       else min 1 (P.quadAlpha * (2 * max (o.mem.prevf - c.fx) (P.quadBeta * P.epsilon)) / (-o.mem.prevdg))) ∧
+    (lsearchGetM env .cgdescent P m cfg f o c d).t0 =
+      (if o.last < 0 then
+        (if 0 < infNorm c.x then P.phi0 * infNorm c.x / infNorm c.gx
+         else if 0 < |c.fx| then P.phi0 * |c.fx| / sqNorm c.gx else 1)
+       else if f1 < c.fx ∧ c.fx + t1 * dg < f1 then dg * t1 * t1 / (2 * (dg * t1 + (c.fx - f1)))
+       else o.last * P.phi2) := by
+  intro dg t1 f1
+  refine ⟨rfl, ?_, ?_, ?_⟩
+  · rw [lsearchGetM_t0]
+    by_cases h : o.last < 0
+    · simp only [t0Of, if_pos h]; exact linear_first P o.mem _ h
+    · simp only [t0Of, if_neg h]; exact linear_formula P o.mem _ h
+  · rw [lsearchGetM_t0]
+    by_cases h : o.last < 0
+    · simp only [t0Of, if_pos h]; exact quadratic_first P o.mem _ h
+    · simp only [t0Of, if_neg h]; exact quadratic_formula P o.mem _ h
+  · rw [lsearchGetM_t0]
+    by_cases h : o.last < 0
+    · simp only [t0Of, if_pos h]; exact cg_first_formula P _ h
+    · simp only [t0Of, if_neg h]
+      rw [cg_next_formula P _ h]
+      simp [scalOf, needsTrial, h, trialPoint, dg, t1, f1]
+
+/-- the members of the strategy after a call are the documented function of the call: quadratic `(f, g·d)`, linear `g·d`
+    (whatever branch computed the step, whether the search then succeeds or not); constant and CG_DESCENT keep none -/
+theorem strategy_members_after_call (env : Env α) (P : Params α) (m : LSearch.Method) (cfg : LSearch.Cfg α)
+    (f : Objective α) (o : Obj α) (c : State α) (d : Vec α) :
+    (lsearchGetM env .quadratic P m cfg f o c d).obj.mem = ⟨c.fx, vdot c.gx d⟩ ∧
+    (lsearchGetM env .linear P m cfg f o c d).obj.mem = ⟨o.mem.prevf, vdot c.gx d⟩ ∧
+    (lsearchGetM env .constant P m cfg f o c d).obj.mem = o.mem ∧
+    (lsearchGetM env .cgdescent P m cfg f o c d).obj.mem = o.mem := ⟨rfl, rfl, rfl, rfl⟩
+
+/-- positivity of the initial step under the conditions that hold at every call inside a solver run: parameters in their
+    domains, a descent direction now, and `ObjInv`: either the first call or a previous call that returned a positive step
+    (for the quadratic strategy: along a descent direction). (Outside: `linear_neg_of_ascent`, `quadratic_neg_of_prev_ascent`, `cg_zero_last`,
+    `cg_first_zero_gradient`, and the kernel-checked runs below.) -/
+theorem initial_step_positive_in_run (env : Env α) (st : Strategy) (P : Params α) (m : LSearch.Method)
+    (cfg : LSearch.Cfg α) (f : Objective α) (o : Obj α) (c : State α) (d : Vec α) (hd : Dom P) (hdg : vdot c.gx d < 0)
+    (hprev : ObjInv st o) : 0 < (lsearchGetM env st P m cfg f o c d).t0 :=
+  t0_pos_in_run st P _ o c d hd hdg hprev
+
+/-- `ObjInv` does hold at every call of every run (from the fresh object of `make_lsearch` on): so inside a run the initial step
+    of every call made along a descent direction is positive -/
+theorem initial_step_positive_throughout_run {M : Type} (env : Env α) (rule : Rule α M) (st : Strategy) (P : Params α)
+    (m : LSearch.Method) (cfg : LSearch.Cfg α) (f : Objective α) (eps : α) (maxEvals fuel : Nat) (hP : Dom P) (hd : LkDom cfg)
+    (hdir : (m = .morethuente ∨ m = .cgdescent) →
+      (∀ x, (f x).2.length = x.length) ∧ ∀ mem p c, c.gx.length = c.x.length → (rule.direction mem p c).1.length = c.x.length)
+    (mem : M) (p c0 : State α) (hc : Consistent f c0) :
+    ∀ ob ∈ (lsLoopS env rule (lsearchGetM env st P m cfg f) eps maxEvals fuel mem Obj.init p c0).2,
+      ∀ (c : State α) (d : Vec α), vdot c.gx d < 0 → 0 < (lsearchGetM env st P m cfg f ob c d).t0 :=
+  fun ob hob c d hdg => t0_pos_in_run st P _ ob c d hP hdg
+    (objects_of_run_inv env rule st P m cfg f eps maxEvals hd hdir fuel mem Obj.init p c0 (objInv_init st) hc ob hob)
+
+/-- the invariant behind `hprev`: after a SUCCESSFUL call along a descent direction the object satisfies the second disjunct
+    for the linear and quadratic strategies (positive last step, `m_prevdg < 0`), and the last step is positive for all four -/
+theorem object_after_success (env : Env α) (st : Strategy) (P : Params α) (m : LSearch.Method) (cfg : LSearch.Cfg α)
+    (f : Objective α) (o : Obj α) (c : State α) (d : Vec α) (hd : LkDom cfg) (hc : Consistent f c)
+    (hlen : (m = .morethuente ∨ m = .cgdescent) → d.length = c.x.length) (hdg : vdot c.gx d < 0) (hok : (lsearchGetM env st P m cfg f o c d).ok = true) :
+    0 < (lsearchGetM env st P m cfg f o c d).obj.last ∧
+    ((st = .linear ∨ st = .quadratic) → (lsearchGetM env st P m cfg f o c d).obj.mem.prevdg < 0) := by
+  refine ⟨(lsearchGetM_success env st P m cfg f o c d hd hc hlen hok).1, ?_⟩
+  rintro (rfl | rfl) <;> exact hdg
+
+end field
+
+/-! ### non-vacuity and kernel-checked runs (over ℚ) -/
+section examples
+
+def envQ : Env ℚ := ⟨fun _ => true, fun x => x, -1000000, 1000000⟩
+/-- `f(x) = Σ xᵢ²` -/
+def sqQ : Objective ℚ := fun x => (vdot x x, x.map (fun v => 2 * v))
+/-- the registered defaults (`lsearch0::epsilon` as `make_lsearch` sets it from `solver::epsilon = 1e-8`) -/
+def paramsQ : Params ℚ :=
+  { epsilon := 1 / 100000000, constT0 := 1, linBeta := 10, linAlpha := 101 / 100, quadBeta := 10, quadAlpha := 101 / 100,
+    phi0 := 1 / 100, phi1 := 1 / 10, phi2 := 2 }
+/-- the registered defaults of the searches with quadratic interpolation -/
+def cfgQ : LSearch.Cfg ℚ :=
+  { c1 := 1 / 10000, c2 := 9 / 10, maxIter := 20, fin := fun _ => true,
+    interp := fun u v => LSearch.quadratic u v, cubic := fun u v => LSearch.bisection u v,
+    eps0 := 1 / 1000000000000, eps1 := 1 / 1000000000, macheps := 1 / 10000000000000000, safeguard := 1 / 10,
+    tau1 := 9, tau2 := 1 / 10, tau3 := 1 / 2, delta := 66 / 100, cgEpsilon := 1 / 1000000, cgTheta := 1 / 2,
+    cgGamma := 66 / 100, cgRo := 5 }
+
+example : Dom paramsQ := by constructor <;> norm_num [paramsQ]
+example : LkDom cfgQ := by
+  refine ⟨⟨?_, ?_, ?_, ?_, ?_, ?_, ?_, ?_⟩, ⟨?_, ?_, ?_, ?_⟩, ?_, ?_⟩ <;> norm_num [cfgQ]
+
+/-- L-BFGS and BFGS with the quadratic strategy and backtracking, gd with CG_DESCENT's strategy and LeMaréchal, on `x²` from
+    `x0 = 1`: `converged` at the minimiser — the premise of `converged_truthful_composed*` is reachable -/
+example : (lsMinimizeS envQ (lbfgsRule 5) .quadratic paramsQ .backtrack cfgQ sqQ (1 / 10) 100 10 [1]).status
+    = Status.converged := by decide +kernel
+example : (lsMinimizeS envQ (lbfgsRule 5) .quadratic paramsQ .backtrack cfgQ sqQ (1 / 10) 100 10 [1]).x = [0] := by
+  decide +kernel
+example : (lsMinimizeS envQ (quasiRule envQ QuasiKind.bfgs 0 false 1) .linear paramsQ .backtrack cfgQ sqQ (1 / 10) 100 10 [1]).status
+    = Status.converged := by decide +kernel
+
+/-- the state at `x = 1` of `x²` -/
+def atOne : State ℚ := ⟨[1], 1, [2], Status.initial, 1, 1⟩
+
+example : Consistent sqQ atOne := ⟨by decide +kernel, by decide +kernel⟩
+
+/-- a successful call: quadratic strategy, first call (`t0 = 1`), backtracking along `−g`: success, `t = 1/2`, the state left is
+    the evaluation at `1 + (1/2)(−2) = 0`, the object remembers `t`, `f = 1`, `g·d = −4` -/
+example : (lsearchGetM envQ .quadratic paramsQ .backtrack cfgQ sqQ Obj.init atOne [-2]).ok = true ∧
+    (lsearchGetM envQ .quadratic paramsQ .backtrack cfgQ sqQ Obj.init atOne [-2]).t0 = 1 ∧
+    (lsearchGetM envQ .quadratic paramsQ .backtrack cfgQ sqQ Obj.init atOne [-2]).obj.last = 1 / 2 ∧
+    (lsearchGetM envQ .quadratic paramsQ .backtrack cfgQ sqQ Obj.init atOne [-2]).state.x = [0] ∧
+    (lsearchGetM envQ .quadratic paramsQ .backtrack cfgQ sqQ Obj.init atOne [-2]).obj.mem.prevf = 1 ∧
+    (lsearchGetM envQ .quadratic paramsQ .backtrack cfgQ sqQ Obj.init atOne [-2]).obj.mem.prevdg = -4 := by decide +kernel
+
+/-- WITNESS (quadratic strategy, a stand-alone `lsearch_t` used twice): a first call along the ASCENT direction `d = +1` is
+    refused, but the object now holds `last = 1` (the refused initial step) and `m_prevdg = +2`; the second call, along the
+    descent direction `d = −1`, hands the NEGATIVE initial step `−101/1000000000` to `lsearchk_t::get` — which clamps it to
+    `stpmin()` (lsearchk.cpp:52), so the search starts from a step of `1e-15`. Replayed on the real code: corpus/C01/ops.txt,
+    `ls0 glue quadratic backtrack … # witness-negative-t0`. Cannot happen inside a solver run (a refused search ends the run). -/
+theorem quadratic_negative_step_after_refusal :
+    let first := lsearchGetM envQ .quadratic paramsQ .backtrack cfgQ sqQ Obj.init atOne [1]
+    let second := lsearchGetM envQ .quadratic paramsQ .backtrack cfgQ sqQ first.obj atOne [-1]
+    first.ok = false ∧ first.obj.last = 1 ∧ first.obj.mem.prevdg = 2 ∧ first.state.x = [1] ∧
+    second.t0 = -(101 / 1000000000) ∧ LSearch.initialStep cfgQ second.t0 = 1 / 1000000000000000 := by decide +kernel
+
+/-- WITNESS (linear strategy): not a first call, ascent direction: the initial step is negative (the search then refuses) -/
+theorem linear_negative_step_on_ascent :
+    (lsearchGetM envQ .linear paramsQ .backtrack cfgQ sqQ ⟨1 / 2, ⟨0, -4⟩⟩ atOne [1]).t0 = -(101 / 100) ∧
+    (lsearchGetM envQ .linear paramsQ .backtrack cfgQ sqQ ⟨1 / 2, ⟨0, -4⟩⟩ atOne [1]).ok = false := by decide +kernel
+
+/-- WITNESS (CG_DESCENT's strategy): after a last step `0` the initial step is `0`; at a stationary point away from the origin
+    the first step is `phi0‖x‖∞ / 0` (`0` here, `+inf` in binary64: corpus `ls0 hist cgdescent … # zero-gradient`) -/
+theorem cgdescent_zero_steps :
+    (lsearchGetM envQ .cgdescent paramsQ .backtrack cfgQ sqQ ⟨0, Mem.init⟩ atOne [-2]).t0 = 0 ∧
+    (l0get .cgdescent paramsQ (fun x => (sqQ x).1) Mem.init ⟨[1], 5, [0], Status.initial, 1, 1⟩ [-1] (-1)).t0 = 0 := by
+  decide +kernel
+
+/-- a later call of CG_DESCENT's strategy: last step `1/2` ⇒ trial step `1/20`, `f(1 − 1/10) = 81/100 < 1` above the tangent ⇒
+    the parabola minimiser `1/2` (exact on a quadratic: the true minimiser of `t ↦ (1 − 2t)²`), one extra value evaluation -/
+example : (l0get .cgdescent paramsQ (fun x => (sqQ x).1) Mem.init atOne [-2] (1 / 2)).t0 = 1 / 2 ∧
+    (l0get .cgdescent paramsQ (fun x => (sqQ x).1) Mem.init atOne [-2] (1 / 2)).extra = 1 := by decide +kernel
+
+/-- the hypotheses of `initial_step_positive_in_run` hold at the second call of a run -/
+example : ObjInv .quadratic (lsearchGetM envQ .quadratic paramsQ .backtrack cfgQ sqQ Obj.init atOne [-2]).obj ∧
+    vdot ([2] : Vec ℚ) [-2] < 0 :=
+  ⟨Or.inr ⟨by decide +kernel, fun _ => by decide +kernel⟩, by decide +kernel⟩
+/-- the hypothesis `hdir` of `initial_step_positive_throughout_run` holds for gd -/
+example : ∀ (mem : Unit) (p c : State ℚ), c.gx.length = c.x.length →
+    ((gdRule : Rule ℚ Unit).direction mem p c).1.length = c.x.length := by
+  intro _ _ c h; simp [gdRule, vneg, h]
+
+end examples
+end NanoVerif.SolverStep
